@@ -1,6 +1,38 @@
 use num_traits::{PrimInt, Unsigned, Zero, CheckedShr};
 use prefix_trie::Prefix;
 
+// ---------------------------------------------------------------------------------------------
+// source of inputs: under Kani every value is symbolic (kani::any); in the native replay binary
+// (src/replay_main.rs) the values come from the byte vectors of a Kani concrete-playback
+// counterexample, in the order of the kani::any() calls.
+#[cfg(kani)]
+pub mod sym {
+    pub fn assume(c: bool) { kani::assume(c) }
+    macro_rules! sym_cover { ($e:expr) => { kani::cover!($e) }; }
+    pub(crate) use sym_cover;
+    pub trait AnyR: Sized { fn any() -> Self; }
+    impl<T: kani::Arbitrary> AnyR for T { fn any() -> Self { kani::any() } }
+}
+#[cfg(not(kani))]
+pub mod sym {
+    use std::cell::RefCell;
+    use std::collections::VecDeque;
+    thread_local! { pub static INPUT: RefCell<VecDeque<Vec<u8>>> = RefCell::new(VecDeque::new()); }
+    pub fn feed(vals: Vec<Vec<u8>>) { INPUT.with(|q| *q.borrow_mut() = vals.into()); }
+    fn next(n: usize) -> Vec<u8> {
+        let mut v = INPUT.with(|q| q.borrow_mut().pop_front()).unwrap_or_default();
+        v.resize(n, 0);
+        v
+    }
+    pub fn assume(c: bool) { if !c { println!("OUTSIDE-PRECONDITION: the replayed values violate a harness assumption"); std::process::exit(3); } }
+    macro_rules! sym_cover { ($e:expr) => { let _ = $e; }; }
+    pub(crate) use sym_cover;
+    pub trait AnyR: Sized { fn any() -> Self; }
+    macro_rules! anyr { ($($t:ty),*) => { $(impl AnyR for $t { fn any() -> Self { let b = next(std::mem::size_of::<$t>()); <$t>::from_le_bytes(b.try_into().unwrap()) } })* }; }
+    anyr!(u8, u16, u32, u64, u128, usize);
+}
+use sym::{AnyR, sym_cover};
+
 /// closed form of the top-`len`-bits mask, written without reference to src/prefix.rs
 fn top<R: PrimInt + Unsigned>(len: u8) -> R {
     let w = R::zero().count_zeros();
@@ -76,11 +108,11 @@ impl Mk for cidr::Ipv6Inet {
 
 fn any_prefix<P: Mk>() -> (P, P::R, u8)
 where
-    P::R: kani::Arbitrary,
+    P::R: AnyR,
 {
-    let r: P::R = kani::any();
-    let l: u8 = kani::any();
-    kani::assume((l as u32) <= width::<P::R>());
+    let r: P::R = AnyR::any();
+    let l: u8 = AnyR::any();
+    sym::assume((l as u32) <= width::<P::R>());
     (P::mk(r, l), r, l)
 }
 
@@ -90,12 +122,12 @@ where
 /// mask(), prefix_len(), repr(), eq, from_repr_len, zero
 pub fn h_basic<P: Mk>()
 where
-    P::R: kani::Arbitrary + std::fmt::Debug,
+    P::R: AnyR + std::fmt::Debug,
 {
     let (a, ra, la) = any_prefix::<P>();
     let (b, _rb, lb) = any_prefix::<P>();
-    kani::cover!(la == 0);
-    kani::cover!(la as u32 == width::<P::R>());
+    sym_cover!(la == 0);
+    sym_cover!(la as u32 == width::<P::R>());
     assert!(a.prefix_len() == la);
     assert!(a.mask() == ra & top::<P::R>(la));
     if P::KEEPS_HOST {
@@ -118,11 +150,11 @@ where
 /// from_repr_len with host bits set (only for the types whose constructor accepts them)
 pub fn h_from_repr_host<P: Mk>()
 where
-    P::R: kani::Arbitrary + std::fmt::Debug,
+    P::R: AnyR + std::fmt::Debug,
 {
-    let r: P::R = kani::any();
-    let l: u8 = kani::any();
-    kani::assume((l as u32) <= width::<P::R>());
+    let r: P::R = AnyR::any();
+    let l: u8 = AnyR::any();
+    sym::assume((l as u32) <= width::<P::R>());
     let f = P::from_repr_len(r, l);
     assert!(f.prefix_len() == l);
     assert!(f.mask() == r & top::<P::R>(l));
@@ -131,17 +163,17 @@ where
 /// contains == bitwise coverage of the network parts
 pub fn h_contains<P: Mk>()
 where
-    P::R: kani::Arbitrary + std::fmt::Debug,
+    P::R: AnyR + std::fmt::Debug,
 {
     let (a, _ra, la) = any_prefix::<P>();
     let (b, _rb, lb) = any_prefix::<P>();
     let c = a.contains(&b);
     let closed = la <= lb && (b.mask() & top::<P::R>(la)) == a.mask();
-    kani::cover!(c && la < lb);
-    kani::cover!(!c && la < lb);
+    sym_cover!(c && la < lb);
+    sym_cover!(!c && la < lb);
     assert!(c == closed);
     // bit view, => direction with a symbolic index
-    let i: u8 = kani::any();
+    let i: u8 = AnyR::any();
     if c && i < la {
         assert!(bit(a.mask(), i as u32) == bit(b.mask(), i as u32));
     }
@@ -160,7 +192,7 @@ where
 
 pub fn h_contains_trans<P: Mk>()
 where
-    P::R: kani::Arbitrary + std::fmt::Debug,
+    P::R: AnyR + std::fmt::Debug,
 {
     let (a, _, _) = any_prefix::<P>();
     let (b, _, _) = any_prefix::<P>();
@@ -172,7 +204,7 @@ where
 
 pub fn h_lcp<P: Mk>()
 where
-    P::R: kani::Arbitrary + std::fmt::Debug,
+    P::R: AnyR + std::fmt::Debug,
 {
     let (a, _ra, la) = any_prefix::<P>();
     let (b, _rb, lb) = any_prefix::<P>();
@@ -180,7 +212,7 @@ where
     let q = b.longest_common_prefix(&a);
     let eqbits = (a.mask() ^ b.mask()).leading_zeros();
     let want = (la as u32).min(lb as u32).min(eqbits);
-    kani::cover!(want < la as u32 && want < lb as u32);
+    sym_cover!(want < la as u32 && want < lb as u32);
     assert!(p.prefix_len() as u32 == want);
     assert!(p.mask() == a.mask() & top::<P::R>(want as u8));
     // zeroed host part
@@ -195,12 +227,12 @@ where
 
 pub fn h_is_bit_set<P: Mk>()
 where
-    P::R: kani::Arbitrary + std::fmt::Debug,
+    P::R: AnyR + std::fmt::Debug,
 {
     let (a, _ra, la) = any_prefix::<P>();
-    let i: u8 = kani::any();
-    kani::cover!(i == 255);
-    kani::cover!(i as u32 == width::<P::R>());
+    let i: u8 = AnyR::any();
+    sym_cover!(i == 255);
+    sym_cover!(i as u32 == width::<P::R>());
     let s = a.is_bit_set(i);
     assert!(s == (i < la && bit(a.mask(), i as u32)));
 }
@@ -208,7 +240,7 @@ where
 /// the two ordering facts the Verus trait contract assumes about `mask()` (lemma_mask_order)
 pub fn h_mask_order<P: Mk>()
 where
-    P::R: kani::Arbitrary + std::fmt::Debug,
+    P::R: AnyR + std::fmt::Debug,
 {
     let (a, _ra, la) = any_prefix::<P>();
     let (b, _rb, lb) = any_prefix::<P>();
@@ -233,14 +265,14 @@ where
 /// host bits never influence any operation (C18 a)
 pub fn h_host_bits<P: Mk>()
 where
-    P::R: kani::Arbitrary + std::fmt::Debug,
+    P::R: AnyR + std::fmt::Debug,
 {
     let (a, ra, la) = any_prefix::<P>();
-    let h: P::R = kani::any();
+    let h: P::R = AnyR::any();
     // a2: same network part, different host bits
     let a2 = P::mk((ra & top::<P::R>(la)) | (h & !top::<P::R>(la)), la);
     let (b, _rb, _lb) = any_prefix::<P>();
-    let i: u8 = kani::any();
+    let i: u8 = AnyR::any();
     assert!(a.eq(&a2));
     assert!(a.mask() == a2.mask());
     assert!(a.contains(&b) == a2.contains(&b));
@@ -252,16 +284,25 @@ where
 
 macro_rules! harnesses {
     ($modname:ident, $ty:ty, host_from_repr = $hf:expr) => {
-        mod $modname {
+        pub mod $modname {
             use super::*;
-            #[kani::proof] fn basic() { h_basic::<$ty>() }
-            #[kani::proof] fn contains() { h_contains::<$ty>() }
-            #[kani::proof] fn contains_trans() { h_contains_trans::<$ty>() }
-            #[kani::proof] fn lcp() { h_lcp::<$ty>() }
-            #[kani::proof] fn is_bit_set() { h_is_bit_set::<$ty>() }
-            #[kani::proof] fn mask_order() { h_mask_order::<$ty>() }
-            #[kani::proof] fn host_bits() { h_host_bits::<$ty>() }
-            #[kani::proof] fn from_repr_host() { if $hf { h_from_repr_host::<$ty>() } }
+            #[cfg_attr(kani, kani::proof)] pub fn basic() { h_basic::<$ty>() }
+            #[cfg_attr(kani, kani::proof)] pub fn contains() { h_contains::<$ty>() }
+            #[cfg_attr(kani, kani::proof)] pub fn contains_trans() { h_contains_trans::<$ty>() }
+            #[cfg_attr(kani, kani::proof)] pub fn lcp() { h_lcp::<$ty>() }
+            #[cfg_attr(kani, kani::proof)] pub fn is_bit_set() { h_is_bit_set::<$ty>() }
+            #[cfg_attr(kani, kani::proof)] pub fn mask_order() { h_mask_order::<$ty>() }
+            #[cfg_attr(kani, kani::proof)] pub fn host_bits() { h_host_bits::<$ty>() }
+            #[cfg_attr(kani, kani::proof)] pub fn from_repr_host() { if $hf { h_from_repr_host::<$ty>() } }
+            /// native dispatch by harness name
+            pub fn run(name: &str) -> bool {
+                match name {
+                    "basic" => basic(), "contains" => contains(), "contains_trans" => contains_trans(), "lcp" => lcp(),
+                    "is_bit_set" => is_bit_set(), "mask_order" => mask_order(), "host_bits" => host_bits(),
+                    "from_repr_host" => from_repr_host(), _ => return false,
+                }
+                true
+            }
         }
     };
 }
@@ -280,3 +321,18 @@ harnesses!(k_ipv4cidr, cidr::Ipv4Cidr, host_from_repr = true);
 harnesses!(k_ipv6cidr, cidr::Ipv6Cidr, host_from_repr = true);
 harnesses!(k_ipv4inet, cidr::Ipv4Inet, host_from_repr = true);
 harnesses!(k_ipv6inet, cidr::Ipv6Inet, host_from_repr = true);
+
+/// native dispatch: `algebra::k_u8::is_bit_set` -> run that harness body on the values fed through sym::feed
+pub fn run_native(harness: &str) -> bool {
+    let parts: Vec<&str> = harness.split("::").collect();
+    let (m, h) = match parts.as_slice() { [.., m, h] => (*m, *h), _ => return false };
+    match m {
+        "k_u8" => k_u8::run(h), "k_u16" => k_u16::run(h), "k_u32" => k_u32::run(h), "k_u64" => k_u64::run(h),
+        "k_u128" => k_u128::run(h), "k_usize" => k_usize::run(h),
+        "k_ipv4net" => k_ipv4net::run(h), "k_ipv6net" => k_ipv6net::run(h),
+        "k_ipv4network" => k_ipv4network::run(h), "k_ipv6network" => k_ipv6network::run(h),
+        "k_ipv4cidr" => k_ipv4cidr::run(h), "k_ipv6cidr" => k_ipv6cidr::run(h),
+        "k_ipv4inet" => k_ipv4inet::run(h), "k_ipv6inet" => k_ipv6inet::run(h),
+        _ => false,
+    }
+}
